@@ -38,7 +38,7 @@ type Rec struct {
 	Err     string `json:"err"`
 }
 
-func run(id, gap int, order string, delay int) Rec {
+func run(id, gap int, order string, delay int, filler bool) Rec {
 	rec := Rec{ID: id, Gap: gap, Order: order, Delay: delay, Want: 2}
 	enc := &countEnc{}
 	audits := make(chan string, 16)
@@ -60,6 +60,25 @@ func run(id, gap int, order string, delay int) Rec {
 		case <-time.After(5 * time.Second):
 			rec.Err = "login not taken"
 		}
+	}
+	// unrelated logins keep arriving (other sshd processes) while the halves wait
+	if filler {
+		go func() {
+			for k := 0; ; k++ {
+				e2 := auditevent.NewAuditEvent("UserLogin", auditevent.EventSource{Type: "IP", Value: "10.9.9.9"}, "succeeded",
+					map[string]string{"loggedAs": "filler", "userID": "f", "pid": fmt.Sprint(90000 + id*100 + k)}, "sshd")
+				select {
+				case logins <- common.RemoteUserLogin{Source: e2, PID: 90000 + id*100 + k, CredUserID: "f"}:
+				case <-ctx.Done():
+					return
+				}
+				select {
+				case <-time.After(17 * time.Second):
+				case <-ctx.Done():
+					return
+				}
+			}
+		}()
 	}
 	time.Sleep(time.Duration(delay) * time.Second) // phase of the arrivals relative to the ticker
 	if order == "record-first" {
@@ -99,7 +118,7 @@ func main() {
 			wg.Add(1)
 			go func(id, gap int, order string, delay int) {
 				defer wg.Done()
-				rc := run(id, gap, order, delay)
+				rc := run(id, gap, order, delay, id%2 == 0 || gap > 100)
 				mu.Lock()
 				recs = append(recs, rc)
 				mu.Unlock()
